@@ -434,6 +434,14 @@ int register_mod_src(m_mod_t *mod, m_src_types type, const void *src_data,
         }
         return !ret ? 0 : -errno;
     }
+    /*
+     * Refused (eg: -EEXIST): nothing of what the user passed is ours.
+     * Do not let the destructor close his fd or free his userdata.
+     */
+    if (!(flags & M_SRC_DUP)) {
+        src->flags &= ~M_SRC_FD_AUTOCLOSE;
+    }
+    src->flags &= ~M_SRC_AUTOFREE;
     m_mem_unref(src);
     return ret;
 }
